@@ -75,6 +75,16 @@ class GarbageCollector:
         """
         stats = {"data_files": 0, "manifest_files": 0, "manifest_lists": 0}
 
+        # 0. Load the in-flight markers BEFORE reading the metadata. A transaction
+        # removes its markers only after its commit point, so a file is either
+        # still protected by the markers read here, or its commit happened
+        # before this read - and is therefore visible to the metadata read that
+        # follows. In the opposite order a commit (pointer flip + marker removal)
+        # falling between the two reads left its files in neither set: a data
+        # file already older than the grace period when it committed was deleted
+        # although a committed snapshot referenced it.
+        protected_files = self._load_inflight_protection(inflight_timeout_ms)
+
         # 1. Refresh metadata to get latest view
         metadata = self.metadata_manager.refresh()
         if not metadata:
@@ -144,8 +154,7 @@ class GarbageCollector:
         logger.info(f"Found reachable: {len(reachable_manifest_lists)} manifest lists, "
                     f"{len(reachable_manifests)} manifests, {len(reachable_data_files)} data files")
 
-        # 3. Load in-flight protection markers (and sweep abandoned ones)
-        protected_files = self._load_inflight_protection(inflight_timeout_ms)
+        # 3. In-flight protection (markers were loaded first, see step 0)
         if protected_files:
             logger.info(f"Protecting {len(protected_files)} in-flight files from GC")
 
